@@ -4,8 +4,11 @@ import json, os, glob, sys
 V = os.path.dirname(os.path.dirname(os.path.abspath(__file__)))
 props = [json.loads(l) for l in open(os.path.join(V, "properties.jsonl"))]
 checks, claimed = [], set()
+approved = set(open(os.path.join(V, "props", "claimed.txt")).read().split())
 for f in sorted(glob.glob(os.path.join(V, "props", "C*.json"))):
     d = json.load(open(f))
+    if d["property_id"] not in approved:
+        continue  # fragment exists but the integrator has not yet seen its check green on the unchanged tree
     pid = d["property_id"]
     d.setdefault("quick_cmd", f"./check {pid} --tier quick")
     d.setdefault("thorough_cmd", f"./check {pid} --tier thorough")
